@@ -211,6 +211,8 @@ class Unit:
             ln = lines[i]
             s = ln.strip()
             if not s.startswith('//@'):
+                if self.vacuity and re.match(r'\s*(pub\s+)?proof fn lemma_', ln):
+                    self.emit('#[verifier::external_body]\n')
                 self.emit(ln + '\n')
                 i += 1
                 continue
@@ -385,6 +387,9 @@ class Unit:
         body = re.sub(r'\n[ \t]*(\n[ \t]*)+\n', '\n\n', body)
         start = self.line
         self.emit('// ---- extracted: %s %s (line %d) ----\n' % (fs.file, fs.selector, src_line))
+        if self.vacuity:
+            # in the twin file only the `__vac` copies are verified; originals keep their contracts for callers
+            self.emit('#[verifier::external_body]\n')
         self.emit(sig + '\n')
         if fs.spec.strip():
             self.emit(fs.spec.rstrip('\n') + '\n')
